@@ -180,9 +180,11 @@ def run(m: Model, r: Report, tier: str) -> None:
     expect = {
         "run": ["self.scan_run"], "state": ["json.dumps(state)"], "request_pdu": ["bytes_repr(request.pdu)"],
         "request_time": ["send_time.timestamp()"], "request_timezone": ["send_time.tzname()"],
-        "request_data": ["json.dumps(request_attributes)"], "response_pdu": ["bytes_repr(response.pdu)", "response is not None"],
-        "response_time": ["receive_time.timestamp()"], "response_timezone": ["receive_time.tzname()"],
-        "response_data": ["json.dumps(response_attributes)"], "exception": ["repr(exception)", "exception is not None"],
+        "request_data": ["json.dumps(request_attributes)"], "response_pdu": ["bytes_repr(response.pdu) if response is not None else None"],
+        "response_time": ["receive_time.timestamp() if response is not None and receive_time is not None else None"],
+        "response_timezone": ["receive_time.tzname() if response is not None and receive_time is not None else None"],
+        "response_data": ["json.dumps(response_attributes) if response is not None else None"],
+        "exception": ["repr(exception) if exception is not None else None"],
         "log_mode": ["log_mode.name"],
     }
     for cname, e in zip(cols, tup.elts):
@@ -251,6 +253,13 @@ def run(m: Model, r: Report, tier: str) -> None:
     okm = len(ifs) == 1 and "'ANALYZE' in config.tags" in ast.unparse(ifs[0].test) and \
         any(ast.unparse(s) == "mode = LogMode.emphasized" for s in ifs[0].body)
     default = any(isinstance(n, ast.Assign) and ast.unparse(n) == "mode = LogMode.implicit" for n in ast.walk(req.node))
+    if okm:
+        t_ = ifs[0].test
+        okm = isinstance(t_, ast.BoolOp) and isinstance(t_.op, ast.And) and [ast.unparse(v) for v in t_.values] == \
+            ["config is not None", "config.tags is not None", "'ANALYZE' in config.tags"]
+    gtests = [n.ast for n in g.nodes.values() if n.id in guard]
+    okm = okm and all(isinstance(t, ast.BoolOp) and isinstance(t.op, ast.And) and [ast.unparse(v) for v in t.values] ==
+                      ["self.implicit_logging", "self.db_handler is not None"] for t in gtests)
     r.check(okm and default, "R8", f"{req.qualname}#mode", "log mode selection (implicit by default, emphasized iff 'ANALYZE' in config.tags) changed", loc=req.loc)
     ok8, p8 = g.must_pass(g.entry, guard, ins)
     r.check(ok8, "R8", f"{req.qualname}#guarded", "insert_scan_result is reachable without the implicit-logging / handler guard", loc=req.loc)
